@@ -13,7 +13,7 @@ import (
 
 // C43 — shard behaviour always matches its reported mode.
 func init() {
-	register(&Check{ID: "C43", Level: "other", Pkgs: []string{"./pkg/local_object_storage/shard/..."}, Run: runC43})
+	register(&Check{ID: "C43", Level: "other", Pkgs: []string{"./pkg/local_object_storage/shard/...", "./pkg/local_object_storage/metabase", "./pkg/local_object_storage/writecache"}, Run: runC43})
 }
 
 const modeField = "(pkg/local_object_storage/shard.Info).Mode"
@@ -403,6 +403,9 @@ func runC43(p *core.Prog, r *core.Report) {
 			r5.Check(len(core.CallSites([]*ssa.Function{ss}, op.Match)) == 1, core.FuncName(ss)+"#Open(m.ReadOnly())", p.Pos(ss.Pos()), "reopened with the requested mode's read-only flag", "the blob storage is not reopened with m.ReadOnly() of the requested mode")
 		}
 	}
+	// ---------------- R6 a component records a mode that needs its store only after the store was opened
+	r6 := r.Rule("C43.R6", "metabase and write-cache record a mode that needs an open store only after every open step of that function returned nil (a failed switch must leave the recorded mode unchanged, else the retry is skipped as 'already in that mode')", 6)
+	componentModeAfterOpen(p, r, r6)
 }
 
 // firstUse returns the first referrer of v (used to see whether a closure is started as a goroutine).
@@ -411,4 +414,100 @@ func firstUse(v ssa.Value) ssa.Instruction {
 		return nil
 	}
 	return (*v.Referrers())[0]
+}
+
+// componentModeAfterOpen: see C43.R6.
+func componentModeAfterOpen(p *core.Prog, r *core.Report, h *core.RuleH) {
+	fields := map[string]bool{"(pkg/local_object_storage/metabase.DB).mode": true, "(pkg/local_object_storage/writecache.cache).mode": true}
+	openers := map[string]bool{
+		"(*pkg/local_object_storage/metabase.DB).openBolt": true, "(*pkg/local_object_storage/metabase.DB).Open": true, "(*pkg/local_object_storage/metabase.DB).Init": true,
+		"(*pkg/local_object_storage/writecache.cache).openStore": true,
+	}
+	degraded, okD := p.ConstInt("pkg/local_object_storage/shard/mode.Degraded")
+	if !okD {
+		r.Fatalf("%s: mode.Degraded constant not found", h.ID())
+		return
+	}
+	n := 0
+	fns := append(p.FuncsIn("pkg/local_object_storage/metabase"), p.FuncsIn("pkg/local_object_storage/writecache")...)
+	for _, fn := range fns {
+		var stores []*ssa.Store
+		for _, b := range fn.Blocks {
+			for _, in := range b.Instrs {
+				if st, ok := in.(*ssa.Store); ok {
+					if fa, isFA := st.Addr.(*ssa.FieldAddr); isFA && fields[core.FieldAddrName(fa)] {
+						stores = append(stores, st)
+					}
+				}
+			}
+		}
+		if len(stores) == 0 {
+			continue
+		}
+		hasOpener := len(core.CallSites([]*ssa.Function{fn}, func(s core.Site) bool { return openers[s.Name] })) > 0
+		for _, st := range stores {
+			n++
+			id := core.FuncName(fn) + "#store " + core.FieldAddrName(st.Addr.(*ssa.FieldAddr))
+			pos := p.InstrPos(st)
+			if k, isK := intConstOf(st.Val); isK && k&degraded != 0 {
+				h.OKTrivial(id+"[no-store mode]", pos, "records a mode that needs no open store")
+				continue
+			}
+			if !hasOpener {
+				h.OKTrivial(id+"[no open step here]", pos, "the function opens nothing: option / constructor default")
+				continue
+			}
+			val := st.Val
+			noStore := core.Guard{Name: "mode-needs-no-store", Pure: true, Match: func(s core.Site) bool {
+				return s.Name == "(pkg/local_object_storage/shard/mode.Mode).NoMetabase" && s.Call.Common().Args[0] == val
+			}, Comps: []core.Comp{{Result: -1, Kind: core.IsTrue}}}
+			gf := core.Flow(fn, []core.Guard{noStore})
+			if gf.Passed(gf.At(st), 0) {
+				h.OK(id+"!after-open", pos, "recorded under 'the mode needs no store'")
+				continue
+			}
+			// nil-tests whose nil edge dominates the store
+			var tests []ssa.Value
+			for _, blk := range fn.Blocks {
+				ifi, isIf := blk.Instrs[len(blk.Instrs)-1].(*ssa.If)
+				if !isIf {
+					continue
+				}
+				bo, isB := ifi.Cond.(*ssa.BinOp)
+				if !isB || bo.Op != token.NEQ && bo.Op != token.EQL {
+					continue
+				}
+				if c, isC := bo.Y.(*ssa.Const); !isC || !c.IsNil() {
+					continue
+				}
+				nilSucc := blk.Succs[1]
+				if bo.Op == token.EQL {
+					nilSucc = blk.Succs[0]
+				}
+				if len(nilSucc.Preds) == 1 && nilSucc.Dominates(st.Block()) {
+					tests = append(tests, bo.X)
+				}
+			}
+			nOpen, ok := 0, true
+			var missing []string
+			for _, cs := range core.CallSites([]*ssa.Function{fn}, func(s core.Site) bool { return openers[s.Name] }) {
+				nOpen++
+				covered := false
+				for _, t := range tests {
+					if cs.Call.Value() != nil && flowsTo(cs.Call.Value(), t, 6) {
+						covered = true
+					}
+				}
+				if !covered {
+					ok = false
+					missing = append(missing, cs.Name[strings.LastIndex(cs.Name, ".")+1:]+" at "+p.InstrPos(cs.Call))
+				}
+			}
+			h.Check(ok && nOpen > 0, id+"!after-open", pos, "recorded only after the error of every open step of the function was tested nil",
+				"the component records the new mode although the open step "+strings.Join(missing, ", ")+" has not been seen to succeed: when the open fails the switch reports an error but the recorded mode has already changed, and the retried switch is skipped as 'already in that mode' — the shard then reports a mode its metabase/write-cache cannot serve")
+		}
+	}
+	if n == 0 {
+		r.Fatalf("%s: no store to a component mode field found", h.ID())
+	}
 }
